@@ -151,6 +151,13 @@ func (e *Env) MakeHealthy() {
 // PropC01: convergence to the hook's desired children, then quiescence.
 func PropC01(c *vs.Case, f Factory, kind string) error {
 	scn := GenScn(c, GenOpts{Kind: kind, AllowRolling: true, AllowSSA: true, AllowFinalize: true})
+	for i := range scn.Prog.Children {
+		// hooks that serialise typed objects return a status stanza with every child
+		if c.Prob(1, 5) {
+			scn.Prog.Children[i].Fields["status"] = map[string]any{"phase": "FromHook"}
+			c.Class("desired-carries-status")
+		}
+	}
 	env, err := NewEnv(scn, f)
 	if err != nil {
 		return fmt.Errorf("harness: %v", err)
@@ -343,6 +350,8 @@ func PropC01(c *vs.Case, f Factory, kind string) error {
 	desired := map[string]map[string]any{}
 	for _, d := range scn.Prog.DesiredAll(env.W.Sim, parent) {
 		n := env.NormalizeDesired(d)
+		// a child's status belongs to whoever runs the child: metacontroller keeps it as observed (C05)
+		delete(n, "status")
 		desired[ObjID(n)] = n
 	}
 	owned := map[string]map[string]any{}
